@@ -578,7 +578,7 @@ func (in *Interp) exec(fr *frame, ins ssa.Instruction, initCtx bool) {
 		fr.regs[fr.fi.idx[x]] = &MapV{KT: mt.Key(), VT: mt.Elem()}
 	case *ssa.MakeSlice:
 		if r, ok := in.absMake(x, in.get(fr, x.Len).(Int), in.get(fr, x.Cap).(Int)); ok {
-			fr.env[x] = r
+			fr.regs[fr.fi.idx[x]] = r
 			break
 		}
 		n := in.concInt(in.get(fr, x.Len).(Int), 64, "makeslice")
